@@ -73,6 +73,7 @@ type stream struct {
 	tracerComponent              *tracing.TracerComponent
 	rebalanceLock                sync.Mutex
 	finishLock                   sync.Mutex
+	offsetLock                   sync.Mutex
 	dirtyLock                    sync.Mutex
 	activeStreams                atomic.Int32
 	streamFinishedWithCloseCh    bool
@@ -96,12 +97,17 @@ func (s *stream) setOffset(vbID uint16, offset *models.Offset, dirty bool) {
 	}
 
 	if s.vbIDRange.In(vbID) {
+		// the regression guard, the store and the notification are one step: an acknowledgement coming from
+		// another goroutine must not overwrite a newer position settled by the stream goroutine meanwhile
+		s.offsetLock.Lock()
 		if current, ok := s.offsets.Load(vbID); ok && current.SeqNo > offset.SeqNo {
+			s.offsetLock.Unlock()
 			return
 		}
 		verifHook("setoffset.checked")
 		s.offsets.Store(vbID, offset)
 		s.consumer.TrackOffset(vbID, offset)
+		s.offsetLock.Unlock()
 		if !dirty {
 			return
 		}
